@@ -256,32 +256,32 @@ Lemma p_get_put_same : forall p r x, p_get (p_put p r x) r = Some x.
 Proof. intros p r x. unfold p_put. simpl. rewrite root_eqb_refl. reflexivity. Qed.
 
 (** ---- Save ---- *)
-Lemma do_save_sound : forall ord c s t bh rh s',
-  store_sound s -> acons t -> do_save ord c s t bh rh = Some s' -> store_sound s'.
+Lemma do_save_sound : forall c s t bh s',
+  store_sound s -> acons t -> do_save c s t bh = Some s' -> store_sound s'.
 Proof.
-  intros ord c s t bh rh s' (D & (L & M) & P) C H. unfold do_save in H.
+  intros c s t bh s' (D & (L & M) & P) C H. unfold do_save in H.
   set (pre := if c_prune c then _ else _) in H.
-  assert (PRE : forall lru1 mem1 maxh al, pre = Some (lru1, mem1, maxh, al) -> map_ok lru1 /\ map_ok mem1).
-  { subst pre. intros lru1 mem1 maxh al E. destruct (c_prune c).
+  assert (PRE : forall lru1 mem1 maxh, pre = Some (lru1, mem1, maxh) -> map_ok lru1 /\ map_ok mem1).
+  { subst pre. intros lru1 mem1 maxh E. destruct (c_prune c).
     - destruct (bh >? s_maxh s); [inversion E; subst; auto|].
       destruct (del_leaf_count _ _ _ _) as [lg|]; [|discriminate].
       destruct (run_log c (s_db s) lg (s_lru s, s_mem s, [])) as [[l1 m1] o1] eqn:R.
       inversion E; subst. exact (run_log_ok _ _ _ _ _ _ _ _ _ D L M R).
     - inversion E; subst; auto. }
-  destruct pre as [[[[lru1 mem1] maxh] al]|]; [|discriminate].
-  destruct (PRE _ _ _ _ eq_refl) as [L1 M1].
+  destruct pre as [[[lru1 mem1] maxh]|]; [|discriminate].
+  destruct (PRE _ _ _ eq_refl) as [L1 M1].
   destruct (asave (c_mvcc c) t (s_db s, lru1)) as [db2 lru2] eqn:A.
   destruct (asave_ok (c_mvcc c) t (s_db s) lru1 C D L1) as [D2 L2]. rewrite A in D2, L2.
   inversion H; subst. repeat split; auto.
 Qed.
 
-Lemma do_save_db : forall ord c s t bh rh s',
-  do_save ord c s t bh rh = Some s' ->
+Lemma do_save_db : forall c s t bh s',
+  do_save c s t bh = Some s' ->
   s_db s' = fst (asave (c_mvcc c) t (s_db s, [])) /\
-  s_idx s' = (if c_prune c then (bh, rh) :: s_idx s else s_idx s) /\ s_pend s' = s_pend s.
+  s_idx s' = (if c_prune c then (bh, ahash t) :: s_idx s else s_idx s) /\ s_pend s' = s_pend s.
 Proof.
-  intros ord c s t bh rh s' H. unfold do_save in H.
-  destruct (if c_prune c then _ else _) as [[[[lru1 mem1] maxh] al]|]; [|discriminate].
+  intros c s t bh s' H. unfold do_save in H.
+  destruct (if c_prune c then _ else _) as [[[lru1 mem1] maxh]|]; [|discriminate].
   destruct (asave (c_mvcc c) t (s_db s, lru1)) as [db2 lru2] eqn:A.
   inversion H; subst. simpl. split; [|auto].
   rewrite (asave_fst _ _ _ [] lru1). rewrite A. reflexivity.
@@ -312,8 +312,7 @@ Proof.
   intros c s r bh kvs o lru1 mem1 obs S H. unfold prepare in H.
   destruct (load_at c s r) as [[o0 lg0]|] eqn:LD; [|discriminate].
   destruct (aset_all o0 kvs lg0) as [[o1 lg]|] eqn:AS; [|discriminate].
-  match type of H with context [run_log c (s_db s) ?x _] => set (lg' := x) in H end.
-  destruct (run_log c (s_db s) lg' (s_lru s, s_mem s, [])) as [[l1 m1] ob1] eqn:RL.
+  destruct (run_log c (s_db s) lg (s_lru s, s_mem s, [])) as [[l1 m1] ob1] eqn:RL.
   inversion H; subst; clear H.
   destruct (load_at_ok _ _ _ _ _ S LD) as [C0 R0].
   destruct (aset_all_sim _ _ _ _ _ C0 AS) as [T C1].
@@ -330,31 +329,21 @@ Lemma with_caches_sound : forall s lru mem,
   store_sound s -> map_ok lru -> map_ok mem -> store_sound (with_caches s lru mem).
 Proof. intros s lru mem (D & _ & P) L M. repeat split; auto. Qed.
 
-(** the root claim holds unless the update has no writes and the loaded root
-    object carries an aliased hash *)
-Definition plain_root (s : store) (r : root) (kvs : list (bytes * bytes)) : bool :=
-  match kvs, root_says s r with
-  | [], Some _ => false
-  | _, _ => true
-  end.
-
-Lemma st_set_ok : forall ord c s r bh kvs r' s',
-  store_sound s -> st_set ord c s r bh kvs = Ok (r', s') ->
+Lemma st_set_ok : forall c s r bh kvs r' s',
+  store_sound s -> st_set c s r bh kvs = Ok (r', s') ->
   store_sound s' /\
-  (plain_root s r kvs = true ->
-   exists o', t_set_all (root_tree r) kvs = Some o' /\ r' = tree_root o').
+  exists o', t_set_all (root_tree r) kvs = Some o' /\ r' = tree_root o'.
 Proof.
-  intros ord c s r bh kvs r' s' S H. unfold st_set in H.
+  intros c s r bh kvs r' s' S H. unfold st_set in H.
   destruct (prepare c s r bh kvs) as [[[[o lru1] mem1] obs]| | |] eqn:PR; try discriminate.
   destruct (prepare_ok _ _ _ _ _ _ _ _ _ S PR) as (C & L1 & M1 & o' & T & R).
   pose proof (with_caches_sound s lru1 mem1 S L1 M1) as S1.
   destruct o as [t|].
-  - destruct (do_save ord c (with_caches s lru1 mem1) t bh _) as [s1|] eqn:SV; [|discriminate].
+  - destruct (do_save c (with_caches s lru1 mem1) t bh) as [s1|] eqn:SV; [|discriminate].
     inversion H; subst. split.
     + eapply do_save_sound; eauto.
-    + intros PL. exists o'. split; [exact T|]. unfold plain_root in PL.
-      destruct kvs as [|kv kvs]; [destruct (root_says s r); [discriminate|]|]; exact R.
-  - inversion H; subst. split; [exact S1|]. intros _. exists o'. auto.
+    + exists o'. split; [exact T|exact R].
+  - inversion H; subst. split; [exact S1|]. exists o'. auto.
 Qed.
 
 Lemma st_memset_ok : forall c s r bh kvs r' s',
@@ -380,15 +369,15 @@ Proof.
     + inversion H; subst. split; [repeat split; auto|]. exists o'. auto.
 Qed.
 
-Lemma st_commit_ok : forall ord c s r r' s',
-  store_sound s -> st_commit ord c s r = Ok (r', s') -> store_sound s' /\ r' = r.
+Lemma st_commit_ok : forall c s r r' s',
+  store_sound s -> st_commit c s r = Ok (r', s') -> store_sound s' /\ r' = r.
 Proof.
-  intros ord c s r r' s' S H. unfold st_commit in H.
+  intros c s r r' s' S H. unfold st_commit in H.
   destruct (p_get (s_pend s) r) as [[[t bh]|]|] eqn:PG; try discriminate.
-  - destruct (do_save ord c s t bh (ahash t)) as [s1|] eqn:SV; [|discriminate].
+  - destruct (do_save c s t bh) as [s1|] eqn:SV; [|discriminate].
     inversion H; subst. split; [|reflexivity].
     assert (C : acons t). { destruct S as (_ & _ & P). eapply P. exact PG. }
-    destruct (do_save_sound _ _ _ _ _ _ _ S C SV) as (D1 & (L1 & M1) & P1).
+    destruct (do_save_sound _ _ _ _ _ S C SV) as (D1 & (L1 & M1) & P1).
     repeat split; auto. simpl. apply pend_ok_del. destruct S as (_ & _ & P). exact P.
   - inversion H; subst. destruct S as (D & (L & M) & P). split; [|reflexivity].
     repeat split; auto. simpl. apply pend_ok_del. exact P.
